@@ -136,6 +136,14 @@ def gen_pairs(tier, seed):
         for nm, t in picks:
             pairs.append({"template": "offset", "params": {"rule": nm}, "e1": b, "e2": ("+", b, t)})
         pairs.append({"template": "self", "params": {"rule": "self"}, "e1": b, "e2": b})
+        if size(b) <= 5:
+            # rational difference is a non-integer constant: (b+k)/c - b/c = k/c
+            for c, k in [(2, 1), (3, 1), (3, 2), (4, 2)]:
+                pairs.append({"template": "frac_offset", "params": {"rule": f"{k}/{c}"},
+                              "e1": ("/", b, N(c)), "e2": ("/", ("+", b, N(k)), N(c))})
+                pairs.append({"template": "frac_offset", "params": {"rule": f"m+{k}/{c}"},
+                              "e1": ("+", V("m"), ("/", b, N(c))),
+                              "e2": ("+", V("m"), ("/", ("+", b, N(k)), N(c)))})
     for _ in range(nrand):
         d = rnd.choice(depth_list)
         pairs.append({"template": "random", "params": {"rule": "random"},
